@@ -207,7 +207,7 @@ c09_newlen!(c09_q_newlen_u24, Rgb888);
 c09_newlen!(c09_q_newlen_u32, U32Color);
 
 #[cfg(feature = "thorough")]
-mod thorough {
+pub mod thorough {
     use super::*;
     c09_img!(c01_c02_c09_t_img_u1_be_5x3, BinaryColor, BigEndianLsb0, true, 5, 3, 18);
     c09_img!(c01_c02_c09_t_img_u1_le_9x3, BinaryColor, LittleEndianMsb0, false, 9, 3, 30);
